@@ -150,7 +150,7 @@ def run(ck):
                     'attribute; each case is read through 4 APIs (Document.paths, paths_from_group x groups x recursive x addressing, svg2paths, SaxDocument)')
     ck.assumptions += ['shape attributes are small integers; transform lists are the 10 of SvgDoc!TfLists (invertible matrices only)',
                        'circle/ellipse are compared as a closed outline of arcs on the mapped ellipse through its four quadrant points (the start point is not prescribed)',
-                       'rx, ry never exceed half the rect size (the clamping rule of the specification is not exercised)']
+                       'rect radii: absent / present / larger than half the side (clamped); negative and percentage values are not generated']
     ck.tlc('SvgDoc', 'SvgDoc_MC.cfg', need_actions=['AddNode', 'StartFlat', 'PopGroup', 'Finish'])
     ck.tlc('Affine', 'Affine_MC.cfg', need_actions=['Push'])
     # the algebra for ALL integer matrices / points (Apalache, unbounded): composition, associativity, det, evaluation commutes, area scales by det
